@@ -63,20 +63,21 @@ def run(eng, p):
     cg = gm.build_computation_graph(inst.dcop)
     comps = [n.name for n in cg.nodes]
     foot = {c: eng.sym_real("foot_" + c, 0, LIM) for c in comps}
-    agents, hosting = [], {}
+    agents, hosting, zero = [], {}, {}
     for i in range(p["agents"]):
         an = "a%d" % i
         hc = {}
         for c in comps:
             k = eng.pick(["pos", "zero"], "host_%s_%s" % (an, c)) if (c == comps[0] or (c == comps[-1] and i == 0)) else "pos"
             hc[c] = 0 if k == "zero" else eng.sym_real("hc_%s_%s" % (an, c), 1, LIM)
+            zero[(an, c)] = (k == "zero")
         routes = {"a%d" % j: eng.sym_real("route_%d_%d" % (min(i, j), max(i, j)), 0, LIM) for j in range(p["agents"]) if j != i}
         agents.append(AgentDef(an, capacity=eng.sym_real("cap_" + an, 0, LIM), default_hosting_cost=1, hosting_costs=hc,
                                routes=routes, default_route=1))
         hosting[an] = hc
     names = [a.name for a in agents]
     for c_ in comps:
-        if sum(1 for a_ in hosting if not is_sym(hosting[a_][c_])) > 1:
+        if sum(1 for a_ in hosting if zero[(a_, c_)]) > 1:
             from symex.engine import PathCut
             raise PathCut()      # the same computation free on two agents: contradictory pinning, not an instance of the statement
     caps = {a.name: a.capacity for a in agents}
@@ -112,7 +113,7 @@ def run(eng, p):
     xvars = sorted(n for n in variables if n.startswith("x_") or n.startswith("f_"))
     aux = sorted(n for n in variables if n not in xvars)
     eng.notes["outcome"] = {"x": len(xvars), "aux": len(aux), "constraints": len(pb.constraints)}
-    pinned = [(c, a) for a in names for c in comps if not is_sym(hosting[a][c])]
+    pinned = [(c, a) for a in names for c in comps if zero[(a, c)]]
     var_of = {}
     for c_ in comps:
         for a_ in names:
